@@ -216,6 +216,20 @@ def check_l1_nlri(x, negotiated, packed) -> tuple[bool, str, dict]:
     return ok, f'decode(encode(x)) != x: {safe_repr(x)} came back as {safe_repr(y)}', dict(wit, decoded=safe_repr(y), x_index=hx(safe_index(x)), y_index=hx(safe_index(y)))
 
 
+def nlri_shape(x) -> str:
+    """structural discriminator for mechanism keys: a labelled family object without a label stack / without an RD"""
+    try:
+        if x.safi.has_label():
+            lab = getattr(x, 'labels', None)
+            if lab is None or not bytes(lab.pack_labels()):
+                return ':no-label'
+        if x.safi.has_rd() and getattr(x, '_has_rd', True) is False:
+            return ':no-rd'
+    except Exception:  # noqa
+        return ''
+    return ''
+
+
 def safe_repr(x) -> str:
     try:
         return repr(x)[:300]
@@ -244,7 +258,8 @@ def law1_pack_nlri_decodes_back(self, negotiated, result) -> bool:
         if sub:
             M.count(sub, 'L1')
         if not ok:
-            key = 'C15/raises:%s:%s' % (label, wit['raises']) if 'raises' in wit else 'C15/roundtrip-nlri:%s/%s' % (self.afi, self.safi)
+            shape = nlri_shape(self)
+            key = 'C15/raises:%s%s:%s' % (label, shape, wit['raises']) if 'raises' in wit else 'C15/roundtrip-nlri:%s/%s%s' % (self.afi, self.safi, shape)
             M.pending = LawViolation(key, what, wit, label, 'L1')
         return ok
     finally:
@@ -274,6 +289,23 @@ def decode_attr_collection(data: bytes, negotiated):
     return AttributeCollection.unpack(data, negotiated)
 
 
+def decode_attr_any(b: bytes, code: int, negotiated):
+    """attribute bytes from pack_attribute -> the decoded attribute of that code, through the production decoders:
+    the registry decoder for one registered TLV, AttributeCollection.unpack for several TLVs or an unknown code"""
+    from exabgp.bgp.message.update.attribute.attribute import Attribute
+
+    tl = attr_tlvs(b)
+    if len(tl) == 1 and Attribute.registered(tl[0][1], tl[0][0]):
+        flag, c, value, _ = tl[0]
+        return decode_attr_tlv(flag, c, value, negotiated)
+    if len(tl) > 1:
+        M.note('L1-attr-multi-tlv')
+    col = decode_attr_collection(b, negotiated)
+    if code not in col:
+        raise KeyError('attribute %d is missing after decoding what ExaBGP encoded: %s' % (code, safe_repr(col)))
+    return col[code]
+
+
 def session_kind(negotiated) -> str:
     return 'asn4' if negotiated.asn4 else 'asn2'
 
@@ -294,17 +326,9 @@ def check_l1_attr(x, negotiated, packed) -> tuple[bool | None, str, dict]:
     except ValueError as e:
         return False, f'pack_attribute output is not a sequence of attribute TLVs: {e}', wit
     try:
-        if len(tl) == 1:
-            flag, c, value, _ = tl[0]
-            y = decode_attr_tlv(flag, c, value, negotiated)
-        else:
-            # AS_PATH + AS4_PATH / AGGREGATOR + AS4_AGGREGATOR towards an OLD speaker: the production decoder
-            # for an attribute field is the one which reconstructs (RFC 6793 4.2.3)
-            M.note('L1-attr-multi-tlv')
-            col = decode_attr_collection(b, negotiated)
-            if code not in col:
-                return False, f'attribute {code} is missing after decoding what ExaBGP encoded', dict(wit, decoded=safe_repr(col))
-            y = col[code]
+        # several TLVs = AS_PATH + AS4_PATH / AGGREGATOR + AS4_AGGREGATOR towards an OLD speaker: the production
+        # decoder for an attribute field is the one which reconstructs (RFC 6793 4.2.3)
+        y = decode_attr_any(b, code, negotiated)
     except Exception as e:  # noqa
         return False, f'ExaBGP cannot decode the attribute it encoded: {type(e).__name__}: {str(e)[:160]}', dict(wit, raises=type(e).__name__)
     try:
